@@ -44,6 +44,7 @@ var tString = types.Typ[types.String]
 type Stats struct {
 	FeasQueries   int
 	AssertQueries int
+	SecondOpinions int // assertion queries answered unsat by z3 4.8.12 or cvc5 after the primary solver said unknown
 	CacheHits     int
 	DomainChecks  int
 	UnknownFeas   int
@@ -70,7 +71,7 @@ type interpreter struct {
 	prefix      []Decision
 	dpos        int
 	decs        []Decision
-	pending     [][]Decision
+	pending     []Alt
 	tape        []tapeVar
 	trail       []trailEnt
 	trailOn     bool
